@@ -472,6 +472,19 @@ func (z *ZodMap[T, R]) collectErrors(value, schema, pathKey any, ctx *core.Parse
 	return dst
 }
 
+// acceptsParseContext reports whether a Parse method takes the parse context
+// after the input, as a plain parameter or as the usual variadic one.
+func acceptsParseContext(mt reflect.Type) bool {
+	if mt.NumIn() < 2 {
+		return false
+	}
+	second := mt.In(1)
+	if mt.IsVariadic() && mt.NumIn() == 2 {
+		second = second.Elem()
+	}
+	return second == reflect.TypeFor[*core.ParseContext]()
+}
+
 func (z *ZodMap[T, R]) validateDirect(value, schema any, ctx *core.ParseContext) error {
 	if schema == nil {
 		return nil
@@ -496,7 +509,7 @@ func (z *ZodMap[T, R]) validateDirect(value, schema any, ctx *core.ParseContext)
 	}
 
 	args := []reflect.Value{reflect.ValueOf(value)}
-	if mt.NumIn() > 1 && mt.In(1).String() == "*core.ParseContext" {
+	if acceptsParseContext(mt) {
 		args = append(args, reflect.ValueOf(ctx))
 	}
 
